@@ -59,6 +59,21 @@ fn families(thorough: bool) -> Vec<Prog> {
                 nm.extend(onames.iter());
                 out.push(Prog { family: format!("shadow in {oname}"), stmts, expected: Some(format!("(2, {e1_dump})")), names: with_names(&nm) });
             }
+            // the same through the other declaration forms: destructuring and a function declaration
+            for (form, decl, inner_dump) in [
+                ("destructuring", format!("({n}, zz) := (2, 3)"), "2"),
+                ("function declaration", format!("{n} := () -> int {{ return 2 }}"), "fn"),
+            ] {
+                for (e1, e1_dump) in [("id(1)", "1"), ("0 - 1", "-1")] {
+                    let body = if inner_dump == "fn" { format!("{decl}; obs = {n}()") } else { format!("{decl}; obs = {n}") };
+                    let mut stmts = pre(vec![format!("{n} := {e1}")]);
+                    stmts.push(otext.replace("BODY", &body));
+                    stmts.push(format!("(*obs, {n})"));
+                    let mut nm: Vec<&str> = vec![n];
+                    nm.extend(onames.iter());
+                    out.push(Prog { family: format!("shadow by {form} in {oname}"), stmts, expected: Some(format!("(2, {e1_dump})")), names: with_names(&nm) });
+                }
+            }
             // declared inside, used after: must be rejected
             let mut stmts = pre(vec![]);
             stmts.push(otext.replace("BODY", &format!("{n} := 2")));
@@ -120,6 +135,31 @@ fn families(thorough: bool) -> Vec<Prog> {
             stmts: pre(vec![format!("mk := ({n}: int) -> () -> int {{ return () -> int {{ return {n} }} }}"), "a := mk(1)".into(), "b := mk(2)".into(), "(a(), b(), a())".into()]),
             expected: Some("(1, 2, 1)".into()),
             names: with_names(&["mk", "a", "b"]),
+        });
+        // the same with *named* function declarations, which are evaluated afresh each time too
+        out.push(Prog {
+            family: "named factory".into(),
+            stmts: pre(vec![format!("mk := (q: int) -> () -> int {{ {n} := () -> int {{ return q }}; return {n} }}"), "a := mk(1)".into(), "b := mk(2)".into(), "(a(), b(), a())".into()]),
+            expected: Some("(1, 2, 1)".into()),
+            names: with_names(&["mk", "a", "b"]),
+        });
+        out.push(Prog {
+            family: "named closure in a loop body".into(),
+            stmts: pre(vec!["acc := mut 0".into(), format!("for i in [1, 2, 3]~ {{ {n} := () -> int {{ return i }}; acc += {n}() }}"), "*acc".into()]),
+            expected: Some("6".into()),
+            names: with_names(&["acc"]),
+        });
+        out.push(Prog {
+            family: "named helper in a function called twice".into(),
+            stmts: pre(vec![format!("t := (k: int, m: int) -> int {{ {n} := (j: int) -> int {{ return j * k }}; return {n}(m) }}"), "(t(2, 3), t(5, 3))".into()]),
+            expected: Some("(6, 15)".into()),
+            names: with_names(&["t"]),
+        });
+        out.push(Prog {
+            family: "named recursive helper in a function called twice".into(),
+            stmts: pre(vec![format!("t := (k: int, m: int) -> int {{ {n} := (j: int) -> int {{ if j <= 0 {{ return 0 }}; return k + {n}(j - 1) }}; return {n}(m) }}"), "(t(2, 3), t(5, 3))".into()]),
+            expected: Some("(6, 15)".into()),
+            names: with_names(&["t"]),
         });
         out.push(Prog {
             family: "factory with cell".into(),
